@@ -330,6 +330,9 @@ func (c *leafCtx) effectsOfCalls(n ast.Node, local map[string]bool, out map[stri
 				mark(ce.Args[0])
 			}
 		}
+		if isPutUint16(ce) {
+			mark(ce.Args[0])
+		}
 		if id, ok := ce.Fun.(*ast.Ident); ok {
 			switch id.Name {
 			case "delete", "copy":
@@ -2590,6 +2593,11 @@ var leaves7 = []leaf7Spec{
 	{"net/nts", "DecodePacket", "nts_DecodePacket", "LeafNts"},
 	{"net/nts", "Packet.authenticate", "nts_Packet_authenticate", "LeafNts"},
 	{"net/nts", "ProcessResponse", "nts_ProcessResponse", "LeafNts"},
+	{"net/nts", "extHdr.pack", "nts_extHdr_pack", "LeafNts"},
+	{"net/nts", "Cookie.pack", "nts_Cookie_pack", "LeafNts"},
+	{"net/nts", "CookiePlaceholder.pack", "nts_CookiePlaceholder_pack", "LeafNts"},
+	{"net/nts", "UniqueIdentifier.pack", "nts_UniqueIdentifier_pack", "LeafNts"},
+	{"net/nts", "Authenticator.pack", "nts_Authenticator_pack", "LeafNts"},
 	// eighth generation (leaf8.go): the clock object — recorded system calls with their argument
 	// values, pointers to immutable structs with identity, the expiry goroutine
 	{"driver/clocks", "setOffset", "clocks_setOffset", "LeafClocks"},
